@@ -1,0 +1,11 @@
+//go:build verif
+
+package oned
+
+import "github.com/makiuchi-d/gozxing/verifhook"
+
+// VerifSnapshot hashes the package-level tables (monitor use only: taken at
+// quiescent points before and after a concurrent workload).
+func VerifSnapshot() uint64 {
+	return verifhook.DeepHash(codabarReader_CHARACTER_ENCODINGS, codabarReader_STARTEND_ENCODING, codabarWriter_START_END_CHARS, codabarWriter_ALT_START_END_CHARS, codabarWriter_CHARS_WHICH_ARE_TEN_LENGTH_EACH_AFTER_DECODED, code128CODE_PATTERNS, code39CharacterEncodings, code93Alphabet, code93CharacterEncodings, ean13Reader_FIRST_DIGIT_ENCODINGS, eanManufacturerOrgSupportList, itfReader_DEFAULT_ALLOWED_LENGTHS, itfReader_START_PATTERN, itfReader_END_PATTERN_REVERSED, itfReader_PATTERNS, itfWriter_START_PATTERN, itfWriter_END_PATTERN, itfWriter_PATTERNS, upce_MIDDLE_END_PATTERN, upce_NUMSYS_AND_CHECK_DIGIT_PATTERNS, checkDigitEncodings, extensionStartPattern, UPCEANReader_START_END_PATTERN, UPCEANReader_MIDDLE_PATTERN, UPCEANReader_END_PATTERN, UPCEANReader_L_PATTERNS, UPCEANReader_L_AND_G_PATTERNS)
+}
